@@ -279,7 +279,8 @@ func init() {
 			"covered: every flag of QueryOptions, Batch, Prepare, RowsMetadata and VariablesMetadata is set exactly when the field it announces is present (and no other bit is set) - the writer and the reader both branch on these flags",
 			"covered per message (lemma functions generated by tools/gen_roundtrip.py, each running the real Encode into a buffer and the real Decode on it, strings and byte strings compared by length and byte by byte): AUTHENTICATE, AUTH_RESPONSE, AUTH_CHALLENGE, AUTH_SUCCESS (nil token distinguished), OPTIONS, READY, PREPARE (query), REVISE, RESULT Void, RESULT SetKeyspace, and the ten ERROR kinds that carry only a message",
 			"covered per message through the TOKEN VIEW of the buffer (tokens.go: the stream as the sequence of notations written; the token clauses of the notation writers/readers are ASSUMED, justified by their byte-level contracts under C02): PREPARE incl. keyspace, STARTUP (option map), ERROR Unavailable, ReadTimeout, WriteTimeout (incl. the version- and CAS-dependent contentions), AlreadyExists, Unprepared, FunctionFailure - field-by-field equality and 'what Encode accepted Decode accepts'",
-			"NOT covered: SUPPORTED (multimap), REGISTER, QUERY/EXECUTE/BATCH (values), RESULT Rows/Prepared/SchemaChange, EVENT, failure errors, the body prefix (tracing id, custom payload, warnings) and compression (C08 covers the wrappers) - these parts of C01 remain undecided by this check; length agreement is C03, flags/body consistency C20",
+			"covered through the token view since session 4: EVENT SchemaChange (change type, target, keyspace, object, arguments per version and target), EVENT StatusChange/TopologyChange (change type; the address is not compared), EXECUTE ids, RESULT SchemaChange, and the RESULT Rows metadata prefix without column specifications (column count, paging state, new metadata id, continuous page number and last-page flag all together)",
+			"NOT covered: SUPPORTED (multimap), REGISTER, bound values of QUERY/EXECUTE/BATCH, BATCH, RESULT Rows data and column specifications, RESULT Prepared, failure errors with reason maps, [inet] fields, the body prefix (tracing id, custom payload, warnings) and compression (C08 covers the wrappers) - these parts of C01 remain undecided by this check; length agreement is C03, flags/body consistency C20",
 		}})
 }
 
